@@ -38,7 +38,7 @@ fn info(tier: Tier) -> CheckInfo {
             "Tier {}: one real node (client mode) with 3 peers. Part A (peers = scripted honest endpoints): every ordered pair from the 13-call menu {{find_node(x), get_closest_nodes(x), get_immutable(x), get_peers(x), put_immutable->x, announce_peer(x), put_mutable->m, find_node(m), put_immutable->y, bootstrapped(), get_mutable(m), announce_signed_peer(s), get_signed_peers(s)}}, the second call placed before every network event of the first call's lifetime and 1 s / 4 min / 6 min after its completion (inside and outside the 5-minute closest-nodes cache). Part B: every single call under every {} of {{drop, duplicate, delay past the request timeout}} over its datagrams and every peer falling silent before each network event. Part C (peers = 3 real server nodes): every single call with each server crashed before each network event{}. Part D: a sync get_peers / get_mutable / get_signed_peers iterator is created and left unread while 4 endpoints answer with values, then info, find_node and put_immutable are issued. Oracle: within {} virtual seconds of the last call being issued every put resolved with exactly one result (its reply channel then yields nothing more), every get stream ended, find_node / get_closest_nodes / bootstrapped returned, and no actor thread died.",
             tier.name(),
             if tier.is_quick() { "single fault" } else { "single fault and pair of faults" },
-            if tier.is_quick() { "" } else { ", and the pairs of part A with the second call at three placements" },
+            if tier.is_quick() { ". Part E: every ordered pair of put/announce calls on different targets issued together, under every single fault" } else { ", and the pairs of part A with the second call at three placements under every single fault" },
             HORIZON / SEC
         ),
         assumptions: vec!["default latency 10 ms; delayed datagrams arrive after 900 ms (> request timeout)".into()],
@@ -275,6 +275,12 @@ pub(crate) fn scenario(chooser: Chooser, sc: &Script, faults: bool, track: bool)
     let mut first_done_at: Option<u64> = None;
     let mut last_issue = w.now;
     let mut problems: Vec<(String, String)> = vec![];
+    if let (Some(0), Some(second)) = (sc.at_event, sc.second) {
+        // placement 0: both calls are queued before the node handles either
+        let c2 = issue(&mut w, a, second, &mut watches);
+        calls.push((c2, second, w.now));
+        second_issued = true;
+    }
     loop {
         let horizon = last_issue + HORIZON;
         if second_issued && calls.iter().all(|(c, _, _)| w.result(*c).is_some()) {
@@ -517,6 +523,26 @@ fn run(tier: Tier, shard: usize, nshards: usize, _seed: u64) -> Partial {
             });
             out.capped |= ex.stats.capped;
             out.gauge_max("max_choice_points", ex.stats.max_choice_points);
+        }
+    }
+    // ---- part E: two overlapping puts on different targets under every single fault (their
+    // lookups can end by timeout in the same tick when a peer is silent)
+    if tier.is_quick() {
+        let puts = [(4usize, 0u8), (5, 0), (6, 1), (8, 2), (11, 3)];
+        for (first, t1) in puts {
+            for (second, t2) in puts {
+                if t1 == t2 || !mine() {
+                    continue;
+                }
+                let s = Script { first, second: Some(second), at_event: Some(0), after: 0, real_peers: false };
+                let mut ex = Explorer::new(1, (0, 1));
+                ex.explore(&mut |chooser, _| {
+                    let (ch, o) = scenario(chooser, &s, true, false);
+                    record(&s, &ch.choices(), &ch.trace, &o, &mut out);
+                    out.add("overlapping_put_pairs_under_fault", 1);
+                    (ch, true)
+                });
+            }
         }
     }
     if !tier.is_quick() {
